@@ -218,7 +218,74 @@ func checkBundleFaults(c BundleCase) error {
 			}
 		}
 	}
+	// the context handed to the Add calls is cancelled at a callback boundary. The harness's fetcher, registry and
+	// finders do not look at it, so nothing fails: the build either says it gave up, or it is as complete as the clean one
+	cleanPkgs, nb, p0 := runWithCancel(c.World, -1, arena, "cc")
+	fsx.RemoveAll(filepath.Join(arena, "cc"))
+	if p0 != "" {
+		return fmt.Errorf("fault-free build: %s", p0)
+	}
+	for n := 1; n <= nb && n <= 10; n++ {
+		ev.Eval()
+		tag := fmt.Sprintf("c%d", n)
+		pkgs, _, p := runWithCancel(c.World, n, arena, tag)
+		fsx.RemoveAll(filepath.Join(arena, tag))
+		ev.NonTrivialKey(fmt.Sprintf("bundle:%x:cancel@%d", h, n), "context-cancelled-mid-build")
+		if p != "" {
+			return fmt.Errorf("context cancelled at callback boundary %d: %s", n, p)
+		}
+		if pkgs >= 0 && pkgs != cleanPkgs {
+			return fmt.Errorf("context cancelled at callback boundary %d of %d: no call reported an error and Close returned a bundle with %d packages, the undisturbed build has %d", n, nb, pkgs, cleanPkgs)
+		}
+	}
 	return nil
+}
+
+// runWithCancel runs the script with a context that is cancelled at the n-th callback boundary (n < 0: never).
+// It returns the number of packages in the bundle (-1 if the build reported an error), the number of boundaries seen,
+// and a description of what is wrong, if anything.
+func runWithCancel(w world.World, n int, arena, tag string) (pkgs, boundaries int, problem string) {
+	h := world.NewHarness(w, nFinders)
+	run, err := world.Start(h, filepath.Join(arena, tag))
+	if err != nil {
+		return -1, 0, "harness: " + err.Error()
+	}
+	ctx, cancel := context.WithCancel(h.Context("full"))
+	defer cancel()
+	h.OnBoundary = func(string) {
+		boundaries++
+		if boundaries == n {
+			cancel()
+		}
+	}
+	failed := false
+	for i, c := range w.Script {
+		res := run.DoCall(ctx, c)
+		if failed {
+			if res.Panicked == nil {
+				return -1, boundaries, fmt.Sprintf("Add call %d accepted after an earlier call had reported an error", i)
+			}
+			continue
+		}
+		if res.Panicked != nil {
+			return -1, boundaries, fmt.Sprintf("Add call %d panicked: %v", i, res.Panicked)
+		}
+		if res.Diags.HasErrors() {
+			failed = true
+		}
+	}
+	h.OnBoundary = nil
+	run.Close()
+	if failed {
+		if run.ClosePanic == nil {
+			return -1, boundaries, "Close returned after an Add call had reported an error"
+		}
+		return -1, boundaries, ""
+	}
+	if run.ClosePanic != nil || run.CloseErr != nil || run.Bundle == nil {
+		return -1, boundaries, fmt.Sprintf("no call reported an error, but Close failed: %v %v", run.CloseErr, run.ClosePanic)
+	}
+	return len(run.Bundle.RemotePackages()), boundaries, ""
 }
 
 func TestPropBundleFaults(t *testing.T) {
